@@ -29,6 +29,30 @@ func (o SubmitOutcome) String() string {
 type RetrieveOutcome struct {
 	Kind  string // ok | notfound | future | listerr | chunkerr
 	Chunk int    // for chunkerr: index of the Get call (0-based) that fails
+	// ErrVariant selects the identity of the error returned for listerr / chunkerr (see RetrieveErr).
+	ErrVariant int
+}
+
+// RetrieveErrVariants is the number of error identities RetrieveErr knows.
+const RetrieveErrVariants = 7
+
+// RetrieveErr returns the v-th kind of transient retrieval error a DA client can surface.
+func RetrieveErr(v int, what string) error {
+	switch v % RetrieveErrVariants {
+	case 1:
+		return fmt.Errorf("da double: %s: %w", what, context.DeadlineExceeded)
+	case 2:
+		return fmt.Errorf("da double: %s: %w", what, coreda.ErrContextDeadline)
+	case 3:
+		return fmt.Errorf("da double: %s: %w", what, coreda.ErrTxTimedOut)
+	case 4:
+		return context.DeadlineExceeded
+	case 5:
+		return fmt.Errorf("rpc error: %s: connection refused", what)
+	case 6:
+		return fmt.Errorf("da double: %s: %w", what, coreda.ErrBlobSizeOverLimit)
+	}
+	return errors.New("da double: " + what + " failed")
 }
 
 // DACall is one call received by the DA double.
@@ -328,7 +352,7 @@ func (d *DADouble) GetIDs(ctx context.Context, height uint64, namespace []byte) 
 	case "listerr":
 		call.Err = "listing failed"
 		d.calls = append(d.calls, call)
-		return nil, errors.New("da double: listing failed")
+		return nil, RetrieveErr(o.ErrVariant, "listing")
 	}
 	var ids [][]byte
 	for id := range d.ids {
@@ -374,7 +398,7 @@ func (d *DADouble) Get(ctx context.Context, ids []coreda.ID, namespace []byte) (
 			call.Outcome = "chunkerr"
 			call.Err = "chunk fetch failed"
 			d.calls = append(d.calls, call)
-			return nil, errors.New("da double: chunk fetch failed")
+			return nil, RetrieveErr(s[0].ErrVariant, "chunk fetch")
 		}
 	}
 	out := make([]coreda.Blob, 0, len(ids))
